@@ -179,15 +179,31 @@ def Machine.removeStates (M : Machine) (keep : Array Bool) : Machine :=
            start := (renT ren M.start).toNat,
            startActs := M.startActs.rename ren }
 
+/-- the action list ends the parse (an unconditional top-level `finish`) before anything that looks at where the
+    transition leads: only hooks, appends, assignments and deletes come before it -/
+def Acts.finishFirst : Acts → Bool
+  | .nil => false
+  | .cons (.finish _) _ => true
+  | .cons (.hook _) r => r.finishFirst
+  | .cons (.append _ _) r => r.finishFirst
+  | .cons (.appendC _ _ _ _) r => r.finishFirst
+  | .cons (.set _ _) r => r.finishFirst
+  | .cons (.setStr _ _) r => r.finishFirst
+  | .cons (.delete _) r => r.finishFirst
+  | .cons _ _ => false
+
 /-- a state reference the renumbering handles: "no state" (negative) or a kept state of the table -/
 def goodB (M : Machine) (keep : Array Bool) (t : Int) : Bool :=
   decide (t < 0) || (decide (t.toNat < M.states.size) && keep.getD t.toNat false)
 
 /-- every state reference of every kept state (transition targets, out-of-space redirects, loop ends of breaks)
-    is "none" or a kept state of the table: the hypothesis of `C05_remove_states_preserves`, decidable -/
+    is "none" or a kept state of the table — except the nominal target of a transition that finishes first
+    (`finishFirst`, no yield): `DFA.dfs` does not follow it and nothing looks at it; the hypothesis of
+    `C05_remove_states_preserves`, decidable -/
 def Machine.closedUnder (M : Machine) (keep : Array Bool) : Bool :=
   (List.range M.states.size).all fun i =>
-    !keep.getD i false || (M.st i).arms.all fun a => goodB M keep a.target && a.acts.targets.all (goodB M keep)
+    !keep.getD i false || (M.st i).arms.all fun a =>
+      (goodB M keep a.target || (a.acts.finishFirst && !a.acts.mayYield)) && a.acts.targets.all (goodB M keep)
 
 def Machine.removeInaccessible (M : Machine) : Machine := M.removeStates M.reachable
 
